@@ -4947,6 +4947,38 @@ class PyCdlib:
 
         self._finish_add(0, num_bytes_to_add)
 
+    def _forget_eltorito_catalog_record(self, rec):
+        # type: (Union[dr.DirectoryRecord, udfmod.UDFFileEntry]) -> None
+        """
+        An internal method to drop a name of the El Torito Boot Catalog that is
+        being removed from the list of records the Boot Catalog keeps.
+
+        Parameters:
+         rec - The Directory Record or UDF File Entry that is being removed.
+        Returns:
+         Nothing.
+        """
+        if self.eltorito_boot_catalog is None:
+            return
+
+        for index, catrec in enumerate(self.eltorito_boot_catalog.dirrecords):
+            if id(catrec) == id(rec):
+                del self.eltorito_boot_catalog.dirrecords[index]
+                break
+        else:
+            return
+
+        if not self.eltorito_boot_catalog.dirrecords:
+            # The rest of the code expects the boot catalog to have at least
+            # one record; give it the same "fake" one that an ISO with a
+            # hidden boot catalog gets when it is parsed.
+            new_record = dr.DirectoryRecord()
+            new_record.new_file(self.pvd, self.logical_block_size,
+                                b'FAKEELT.;1',
+                                self.pvd.root_directory_record(), 0, '',
+                                b'', False, 0, time.time())
+            self.eltorito_boot_catalog.add_dirrecord(new_record)
+
     def rm_hard_link(self, iso_path=None, joliet_path=None, udf_path=None):
         # type: (Optional[str], Optional[str], Optional[str]) -> None
         """
@@ -5007,6 +5039,11 @@ class PyCdlib:
                 num_bytes_to_remove += self._rm_udf_link(rec)
         else:
             raise pycdlibexception.PyCdlibInvalidInput("One of 'iso_path', 'joliet_path', or 'udf_path' must be specified")
+
+        if rec is not None:
+            # If this was one of the names of the El Torito Boot Catalog, the
+            # Boot Catalog must not keep using the removed record.
+            self._forget_eltorito_catalog_record(rec)
 
         self._finish_remove(num_bytes_to_remove, True)
 
@@ -5587,6 +5624,9 @@ class PyCdlib:
         # the Boot Catalog.
         for rec in self.eltorito_boot_catalog.dirrecords:
             if isinstance(rec, dr.DirectoryRecord):
+                if rec.index_in_parent < 0:
+                    # The "fake" record of a boot catalog that has no name.
+                    continue
                 num_bytes_to_remove += self._rm_dr_link(rec)
             elif isinstance(rec, udfmod.UDFFileEntry):
                 num_bytes_to_remove += self._rm_udf_link(rec)
